@@ -86,6 +86,7 @@ CLAUSE_NOTE = {
     "listing-disagrees": "the bucket listing shows other metadata than describing the bucket",
     "absent-bucket-listed": "a bucket that cannot be looked up is still listed",
     "batch-other-bucket-changed": "after a run of calls without intermediate reads, a bucket that none of them addressed reads back differently",
+    "batch-other-bucket-changed-by-out-of-contract-call": "a run of calls without intermediate reads ended with a call carrying an out-of-contract id; afterwards a bucket other than the one that call addressed does not hold what the earlier calls left there",
     "batch-outcome": "a call inside a run without intermediate reads raised (or failed to raise) against the documented outcome",
     "batch-precondition": "a call inside a run without intermediate reads is not enabled in the reference model",
     "batch-final-state": "after a run of calls without intermediate reads the store does not hold what the reference model holds (an effect was lost, duplicated or leaked)",
@@ -126,7 +127,7 @@ def relevant(prop, op, clause, rec=None):
         return True                      # the trace could not be evaluated: never silently dropped
     if op == "batch" and clause.startswith("batch-"):
         kinds = {x["op"] for x in (rec or {}).get("ops", [])}
-        if clause == "batch-other-bucket-changed":
+        if clause in ("batch-other-bucket-changed", "batch-other-bucket-changed-by-out-of-contract-call"):
             return prop in ("C04", "C02")
         if prop == "C05":
             return bool(kinds & set(LIFECYCLE_OPS))
@@ -168,13 +169,13 @@ def run(prop, tier, seed, replay=None):
             raise tlc.TLCFailure("AwStoreGen produced no behaviours:\n" + out[-2000:])
         for i, mops in enumerate(gen):
             ops = store.from_model_ops(mops)
-            behaviours.append(("g%d" % i, store.restrict(ops, profile == "frame")))
+            behaviours.append((("F%d" if profile == "frame" else "g%d") % i, store.restrict(ops, profile == "frame")))
         rep.notes["tlc_generated_behaviours"] = len(gen)
         prof = {"history": ["history", "ties"], "frame": ["frame", "ties"], "lifecycle": ["lifecycle", "mixed"]}[profile]
         for i in range(nrand):
             p = prof[i % len(prof)]
             ops = store.random_history(rnd, "mixed" if p == "frame" else p, maxlen=16 if tier == "quick" else 24)
-            behaviours.append(("r%d" % i, store.restrict(ops, profile == "frame" or (profile == "lifecycle" and p == "mixed"))))
+            behaviours.append((("F%d" if profile == "frame" else "r%d") % i, store.restrict(ops, profile == "frame" or (profile == "lifecycle" and p == "mixed"))))
         rep.notes["random_histories"] = nrand
     # ---- 3. run on the real backends
     runs = store.run_batch(behaviours, seed, backends=backends)
